@@ -47,6 +47,10 @@ def main():
             return 1
     elif not os.environ.get("SKIP_CONFIRM"):
         demo_cmd = meta.get("demo_cmd", "cargo test --offline --test seed_demo")
+        feats = meta.get("demo_features")
+        if feats and "demo_cmd" not in meta:
+            feats = feats if isinstance(feats, str) else ",".join(feats)
+            demo_cmd = "cargo %stest --offline --features %s --test seed_demo" % ("+nightly " if "specialized" in feats else "", feats)
         if "CARGO_NET_OFFLINE" in demo_cmd:
             demo_cmd = demo_cmd.split("CARGO_NET_OFFLINE=true")[-1].strip()
         if demo_cmd.startswith("cd "):
